@@ -78,7 +78,9 @@ Definition is_regevo (c : cfg) : bool := match c_search c with RegEvo => true | 
 (* classification of a call site, computed by the translator (harness/vp/props/c07_sites.py; index in its CLASSES list) *)
 Definition K_Seeded := 0.    Definition K_Global := 1.  Definition K_CtorSeeded := 2.  Definition K_CtorFresh := 3.
 Definition K_Dist := 4.      Definition K_CS := 5.      Definition K_CSSeed := 6.      Definition K_Ext := 7.
-Definition K_Pass := 8.      Definition K_PassFresh := 9.
+Definition K_Pass := 8.      Definition K_PassFresh := 9.   Definition K_PassShared := 10.
+(* K_PassShared: a shared generator handed to the concurrently running tasks of a Parallel(require="sharedmem"): the thread schedule decides
+   which task draws which slice of the stream - not a function of the seed *)
 
 (* owner of a file: which search class executes code of that file *)
 Definition O_Any := 0.  Definition O_CBO := 1.  Definition O_Random := 2.  Definition O_RegEvo := 3.
@@ -91,6 +93,9 @@ Definition S_SampleChoice := 3.  (* Optimizer._sample: np.random.choice under `i
 Definition S_MesRvs := 4.        (* gaussian_mes: scipy norm.rvs without random_state        - needs acq_func MES / MESd *)
 Definition S_SdvSample := 5.     (* Space.rvs: self.model_sdv.sample                         - needs fit_generative_model *)
 Definition S_SdvSetOrder := 6.   (* Space.rvs: list(set(hps_names) - set(sdv_names))         - needs fit_generative_model *)
+Definition S_InternalAlias := 8.  (* Optimizer.space / Space.config_space bound to a constructor argument: not an API boundary - inside the
+                                     anchors these objects are only built from Search._problem (the search's own deep copy): CBO.__init__
+                                     (convert_to_skopt_space(self._problem.space)), CBO._setup_optimizer, Optimizer.copy (its own space) *)
 Definition S_RegevoSetOrder := 7. (* RegularizedEvolution._ask: list(space.get_active_hyperparameters(...)) *)
 
 Record site := { s_owner : Z; s_key : Z; s_cls : Z }.
@@ -113,6 +118,7 @@ Definition key_ok (w : world) (c : cfg) (k : Z) : bool :=
   else if k =? S_MesRvs then is_mes c
   else if k =? S_SdvSample then c_transfer c
   else if k =? S_SdvSetOrder then c_transfer c
+  else if k =? S_InternalAlias then false
   else true.   (* S_None, S_RegevoSetOrder and any unknown key: reachable (fail closed) *)
 
 Definition reach (w : world) (c : cfg) (s : site) : bool := owner_ok c (s_owner s) && key_ok w c (s_key s).
@@ -151,14 +157,15 @@ Definition prefix_mes_site : site := {| s_owner := O_CBO; s_key := S_MesRvs; s_c
 
 (* ---- environment reads *)
 Definition E_SetOrder := 0. Definition E_Hash := 1. Definition E_Id := 2. Definition E_Listing := 3. Definition E_Clock := 4.
-Definition E_Pid := 5. Definition E_Entropy := 6.
-Definition F_LogOnly := 0. Definition F_PathOnly := 1. Definition F_Flows := 2.
+Definition E_Pid := 5. Definition E_Entropy := 6. Definition E_SharedState := 7.
+Definition F_LogOnly := 0. Definition F_PathOnly := 1. Definition F_Flows := 2. Definition F_Owned := 3.
 
 Record esite := { e_owner : Z; e_key : Z; e_kind : Z; e_flow : Z }.
 
 Definition ereach (w : world) (c : cfg) (e : esite) : bool := owner_ok c (e_owner e) && key_ok w c (e_key e).
-(* benign: the value only reaches log messages or the name of a file in the log directory *)
-Definition env_benign (e : esite) : bool := (e_flow e =? F_LogOnly) || (e_flow e =? F_PathOnly).
+(* benign: the value only reaches log messages or the name of a file in the log directory; for state received from the caller
+   (E_SharedState): the search works on its own deep copy (F_Owned) *)
+Definition env_benign (e : esite) : bool := (e_flow e =? F_LogOnly) || (e_flow e =? F_PathOnly) || (e_flow e =? F_Owned).
 Definition env_ok (w : world) (c : cfg) (l : list esite) : bool := forallb (fun e => implb (ereach w c e) (env_benign e)) l.
 Definition esite_eqb (a b : esite) : bool := (e_owner a =? e_owner b) && (e_key a =? e_key b) && (e_kind a =? e_kind b) && (e_flow a =? e_flow b).
 Definition esite_in (e : esite) (l : list esite) : bool := existsb (esite_eqb e) l.
